@@ -173,6 +173,21 @@ theorem C10_local_clear (s : LServing) (t a : Nat) :
     (s.clear t).getattr t a = s.dflt a ∧ (s.clear t).names t = [] := by
   simp [LServing.clear, LServing.getattr, LServing.names, aget]
 
+/-- Internal redirect on the container (`release_serving`, then `get_serving` on the same thread): the thread
+    owns exactly the sub-request's request and response; no attribute of the parent - ad hoc or not - is left. -/
+theorem C10_local_redirect (s : LServing) (t rq rs : Nat) :
+    ((s.clear t).load t rq rs).names t = [1, 0] ∧
+    ((s.clear t).load t rq rs).getattr t 0 = some rq ∧ ((s.clear t).load t rq rs).getattr t 1 = some rs ∧
+    ∀ a, 2 ≤ a → ((s.clear t).load t rq rs).getattr t a = s.dflt a := by
+  refine ⟨?_, ?_, ?_, ?_⟩
+  · simp [LServing.clear, LServing.load, LServing.names, aset, aerase]
+  · exact (C10_local_load _ t rq rs).1
+  · exact (C10_local_load _ t rq rs).2.1
+  · intro a ha
+    have h0 : ¬ (0 = a) := by omega
+    have h1 : ¬ (1 = a) := by omega
+    simp [LServing.clear, LServing.load, LServing.getattr, aset, aerase, aget, h0, h1]
+
 /-- What a thread set is what it reads back. -/
 theorem C10_local_setattr (s : LServing) (t a v : Nat) : (s.setattr t a v).getattr t a = some v := by
   simp [LServing.setattr, LServing.getattr, aget_aset_self]
